@@ -1,6 +1,6 @@
 """C07 in-place merge (+=) agrees with pure merge (+)."""
 import catalogue as cat
-from gen_common import SETUP, bounds_text, data_params
+from gen_common import SETUP, SPECIAL_XY, bounds_text, data_params
 from run import Harness
 
 ASSUMPTIONS = ["a and its twin a0 are filled with the same symbolic stream; b with another; n <= 1..2 records each"]
@@ -10,14 +10,15 @@ def _setup(tree):
     return SETUP + f"MK = lambda: {tree.expr}\n"
 
 
-def iadd(tree, na, nb, mode="real", timeout=60, fixy=False):
-    pa, prea, codea = data_params(tree, na, mode=mode, prefix="a", fix_leaf_y=fixy)
-    pb, preb, codeb = data_params(tree, nb, mode=mode, prefix="b", fix_leaf_y=fixy)
+def iadd(tree, na, nb, mode="real", timeout=60, fixy=False, special=False, reload_b=False):
+    pa, prea, codea = data_params(tree, na, mode=mode, prefix="a", fix_leaf_y=fixy, special=special)
+    pb, preb, codeb = data_params(tree, nb, mode=mode, prefix="b", fix_leaf_y=fixy, special=special)
     pe, pree, codee = data_params(tree, 1, mode=mode, prefix="e", fix_leaf_y=fixy)
     body = codea + codeb + codee + """
 a, a0, b = fresh(MK, 3)
 for d in adata: a.fill(d); a0.fill(d)
 for d in bdata: b.fill(d)
+""" + ("b = Factory.fromJson(J(b))   # the right operand arrives as JSON (fillsparksql does self += fromJson(...))\n" if reload_b else "") + """
 expected = J(a0 + b)
 jb = J(b)
 ida = id(a)
@@ -26,21 +27,32 @@ if id(a) != ida: return "not-same-object"
 if not jeq(J(a), expected): return "iadd-differs-from-add"
 if not jeq(J(b), jb): return "right-operand-changed"
 ja = J(a)
+""" + ("""
 b.fill(edata[0])
 if not jeq(J(a), ja): return "later-fill-of-b-leaks-into-a"
+""" if not reload_b else """
+c2 = b + b
+if not jeq(J(a), ja): return "later-merge-of-b-leaks-into-a"
+""") + """
 jb = J(b)
 a.fill(edata[0])
 if not jeq(J(b), jb): return "later-fill-of-a-leaks-into-b"
 """
     return Harness(
-        f"C07/iadd/{tree.name}/a{na}b{nb}/{mode}" + ("-fixy" if fixy else ""), pa + pb + pe, " and ".join(prea + preb + pree), body, mode=mode,
-        timeout=timeout, setup=_setup(tree), tree=tree.expr,
-        bounds=bounds_text(tree, na + nb + 1, a_records=na, b_records=nb, continuation="one symbolic fill of b, then of a"),
+        f"C07/iadd/{tree.name}/a{na}b{nb}/{mode}" + ("-fixy" if fixy else "") + ("-s" if special else "") + ("-reloaded" if reload_b else ""), pa + pb + pe, " and ".join(prea + preb + pree), body, mode=mode,
+        timeout=timeout, setup=_setup(tree), tree=tree.expr, special=SPECIAL_XY if special else None,
+        bounds=bounds_text(tree, na + nb + 1, right_operand="reloaded from JSON" if reload_b else "live", data="finite reals + nan/+-inf" if special else "finite reals", a_records=na, b_records=nb, continuation="one symbolic fill of b, then of a"),
     )
 
 
 def harnesses(tier):
     out = []
+    for t in cat.unit() + cat.extra_unit():
+        out.append(iadd(t, 1, 1, reload_b=True))
+        if (t.uses_x or t.uses_y) and not t.cmp_only:
+            out.append(iadd(t, 1, 1, special=True, timeout=90))
+    for t in cat.extra_unit():
+        out.append(iadd(t, 1, 1, timeout=90))
     for t in cat.unit():
         out.append(iadd(t, 1, 1))
         out.append(iadd(t, 0, 1, timeout=40))
